@@ -406,7 +406,7 @@ class Gen(object):
             from ladybug_geometry.geometry2d.polygon import Polygon2D
             n = r.randint(3, 9)
             cx, cy = s(), s()
-            angs = sorted(r.sample(range(32), n))
+            angs = sorted(r.sample(range(20 if stream == 'lattice' else 32), n))
             pts = []
             for a in angs:
                 rad = r.choice([1.0, 2.0, 3.0, 1.5]) if stream == 'lattice' else \
